@@ -722,6 +722,69 @@ func runHistory(c *lib.Ctx, id int, ops []string) {
 			h.before(evs, "shutdown before final-shutdown", first(evs, old.Gen, "shutdown"), first(evs, old.Gen, "final-shutdown"))
 		}
 	}
+	if inst != nil && h.ok && !h.plainOnly && id%4 == 2 {
+		// a last successful reload to a configuration WITHOUT servers, with
+		// graceful servers whose Stop takes a while longer than their serve loop:
+		// nothing of the successor keeps the lineage busy, and still waiting on
+		// the instance returns only once the old servers have stopped
+		nc := cfg{Gen: h.nextGen}
+		h.nextGen++
+		old := live
+		atomic.StoreInt32(&slowStopMs, 20)
+		var ni *casket.Instance
+		evs, err := step("reload-to-no-servers", nc.Gen, func() error {
+			var e error
+			ni, e = inst.Restart(input(nc.text(occupied)))
+			closeAllPlain() // (servers that are not graceful are not stopped by a reload)
+			return e
+		})
+		atomic.StoreInt32(&slowStopMs, 0)
+		if err != nil {
+			h.viol("C16/valid-reload-failed", "reload to a configuration without servers failed: "+err.Error())
+		} else {
+			inst, live = ni, nc
+			h.c.Count("reloads_to_a_configuration_without_servers", 1)
+			h.expect(evs, fmt.Sprintf("reload-to-no-servers gen %d->%d", old.Gen, nc.Gen), map[string]int{
+				fmt.Sprintf("restart(%d)", old.Gen): 1, fmt.Sprintf("startup(%d)", nc.Gen): 1, fmt.Sprintf("shutdown(%d)", old.Gen): 1})
+			// every server of the lineage has stopped now: the waiters return ...
+			dl := time.Now().Add(20 * time.Second)
+			for {
+				pending := 0
+				traceMu.Lock()
+				for _, w := range h.waits {
+					if w.returned == 0 {
+						pending++
+					}
+				}
+				traceMu.Unlock()
+				if pending == 0 {
+					break
+				}
+				if time.Now().After(dl) {
+					h.viol("C16/wait-never-returns", "Wait() still blocked 20 s after a reload to a configuration without servers had stopped every server of the lineage")
+					break
+				}
+				time.Sleep(time.Millisecond)
+			}
+			// ... and not before the last of them had
+			var lastEnd int64
+			for _, e := range traceFrom(0) {
+				if (e.Kind == "serve-end" || e.Kind == "stop-done") && e.Gen/100 == id && e.Seq > lastEnd {
+					lastEnd = e.Seq
+				}
+			}
+			traceMu.Lock()
+			for _, w := range h.waits {
+				if w.returned != 0 && w.returned < lastEnd {
+					traceMu.Unlock()
+					h.viol("C16/wait-returned-early", fmt.Sprintf("Wait() on generation %d returned (seq %d) before the last server of its lineage had stopped (seq %d) in a reload to a configuration without servers", w.gen, w.returned, lastEnd))
+					traceMu.Lock()
+				}
+			}
+			h.waits = nil
+			traceMu.Unlock()
+		}
+	}
 	if inst != nil {
 		stopAll("final-stop")
 	}
